@@ -655,7 +655,7 @@ func c08Judge(cs c08Case, run, twin *c08Run) {
 	}
 	run.Class = fmt.Sprintf("%s victim=%d restarts=%d injected-errors=%d: %s", cs.Scenario, cs.Victim, v.Restarts, len(v.Injected), strings.Join(cl, " "))
 	if m.Vulnerable != "" {
-		run.Class += " [restart loaded gob-mangled empty slots]"
+		run.Class += " [reload point with gob-mangled empty slots]"
 	}
 }
 
